@@ -66,8 +66,8 @@ PROPS["C12"] = {
         ("R-DOF-GUARD", _dof_guard, {}),
         ("R-STATS-ERR-MAP", rules_stats.rule_stats_err_map, {}),
         # "... or the model errs while the statistics are computed ... returns Err, without panicking"
-        ("R-ERR-DISCIPLINE", rules_err.rule_err_discipline, {}),
-        ("R-PANIC-SITES", _panic_sites, {}),
+        ("R-ERR-DISCIPLINE", rules_err.rule_err_discipline, {"scope": "statistics"}),
+        ("R-PANIC-SITES", _panic_sites, {"scope": "statistics"}),
         ("R-CHI2", _chi2, {}),
     ],
     "explanation": "Guard-before-subtraction and decision-table rules on FitStatistics' constructor and fit_with_statistics: the "
@@ -145,7 +145,7 @@ PROPS["C03"] = {
         ("R-KAUFMAN-COL", rp2.rule_kaufman_col, {}),
         ("R-JAC-ABSENT", rules_err.rule_jac_absent, {}),
         ("R-VEC-COLMAJOR", rp.rule_vec_colmajor, {}),
-        ("R-SHAPES", shapes.rule_shapes, {}),
+        ("R-SHAPES", shapes.rule_shapes, {"parts": ("set_params", "jacobian")}),
     ],
     "explanation": "Algebraic normal form of the value written to Jacobian column k equals +U*U^T*X - X with X = W*eval_partial_deriv(model,k)*C, U the cached left singular vectors, "
                    "k the enumerate index of the column; allocation (output_len*ncols(Y_w)) x parameter_count; same flattening as the residuals; Some(J) only through the Ok edge of the collected column results.",
@@ -205,7 +205,7 @@ PROPS["C07"] = {
         ("R-SETTER-FRAME", rp2.rule_setter_frame, {}),
         ("R-CTOR-SIBLINGS", rp2.rule_ctor_siblings, {}),
         ("R-COEF-SOLVE", rp.rule_coef_solve, {}),
-        ("R-SHAPES", shapes.rule_shapes, {}),
+        ("R-SHAPES", shapes.rule_shapes, {"parts": ("set_params", "jacobian", "best_fit")}),
     ],
     "explanation": "Single- and multi-right-hand-side problems share one code path (no body uses the const generics MRHS/PAR as a value); single-rhs observations are only reshaped to N x 1; "
                    "coefficients, residuals and Jacobian columns are products with the data/coefficient matrix on the right (columns never mixed) and residuals and every Jacobian column use the same column-major flattening, so block s belongs to column s.",
